@@ -282,6 +282,10 @@ def iterate(it, v):
         if v.items:
             raise Unsupported('iteration over symbolic list with appended items')
         return iterate(it, v.prefix)
+    if isinstance(v, IterV) and v.items is not None:
+        rest = v.items[v.pos:]
+        v.pos = len(v.items)
+        return 'concrete', rest
     if isinstance(v, Stream):
         return 'symbolic', StreamSource(v)
     if isinstance(v, SymSeq):
@@ -2253,7 +2257,14 @@ def _b_dict(it, src=None, **kw):
     elif isinstance(src, CompSeq):
         d = build_comp(it, src.src, src.vars, src.elem, src.conds, 'dict')
     elif isinstance(src, Tree):
-        raise Unsupported('dict(descriptor)')
+        # dict(d): a SHALLOW copy -- nested objects are shared with the original
+        d = Tree(src.name + '_shallow')
+        d.schema = getattr(src, 'schema', {})
+        d.children = dict(src.children)
+        d.has = dict(src.has)
+        d.init_children = dict(src.children)
+        d.init_has = dict(src.has)
+        d.shallow_of = src
     else:
         raise Unsupported('dict(%r)' % (src,))
     for k, v in kw.items():
@@ -2261,7 +2272,7 @@ def _b_dict(it, src=None, **kw):
     return d
 
 
-def _consume_genexp_dict(it, ge):
+def _unused_consume_genexp_dict(it, ge):
     return consume_comp(it, ge, 'dict')
 
 
@@ -2288,6 +2299,18 @@ def _b_list(it, src=None):
         return SymList(SymSeq('all(%s)' % src.name, z3.Const('all_' + src.name, IntS), None), [])
     if isinstance(src, GenObj):
         q = src.fn.qualname
+        if q in it.inline or '*' in it.inline:
+            # list(<inlined generator>): run it here and collect what it yields.  Only generators whose loops are unrolled
+            # (or cut with their iterations checked by hooks) are inlined; a cut loop inside makes this path end at the
+            # end of the iteration, as for any cut loop.
+            n0 = len(it.path.events)
+            it.run_generator(src)
+            out = []
+            for e in it.path.events[n0:]:
+                if e.kind == 'Yield':
+                    e.kind = 'YieldCollected'
+                    out.append(e.obj)
+            return PyList(out)
         it.emit(Ev('Drain', src=src, how='list'))
         return SymList(SymSeq('all(gen)', it.fresh('allgen', IntS), None), [])
     if isinstance(src, (CompSeq, SymSeq)):
@@ -2656,7 +2679,7 @@ def _b_filter(it, fn, src):
             r = x if fn is None else it.call(fn, [x])
             if it.branch(it.truth(r)):
                 out.append(x)
-        return PyList(out)
+        return IterV(items=out)        # filter() returns an iterator
     src2 = items
     elem = src2.fresh_elem(it)
     vars = list(getattr(src2, 'last_vars', []))
